@@ -215,6 +215,8 @@ pub(super) fn merge_create_node(
     props: &std::collections::BTreeMap<String, PropertyValue>,
     created_count: &mut u32,
 ) -> Result<InternalNodeId> {
+    #[cfg(nervusdb_verif)]
+    use nervusdb_api::verif::chrono_shim as chrono;
     let external_id = ExternalId::from(
         *created_count as u64 + chrono::Utc::now().timestamp_nanos_opt().unwrap_or(0) as u64,
     );
